@@ -256,6 +256,9 @@ impl Acc {
         // that the harness cannot script, so the shrunk case may not fail again)
         let first: std::cell::RefCell<Option<(Fail, Value)>> = std::cell::RefCell::new(None);
         let cell = std::cell::RefCell::new(&mut *self);
+        let case_no = std::cell::Cell::new(0u64);
+        // at most ~400 perturbations per sub-check, at least one case in eight for small sub-checks
+        let stride = (cases as u64 / 400).max(8);
         let res = runner.run(&strat, |case| {
             let mut g = cell.borrow_mut();
             let acc: &mut Acc = &mut g;
@@ -264,6 +267,16 @@ impl Acc {
             }
             let known = acc.known.clone();
             let sub_name = acc.sub.clone();
+            // history dimension: one case in `stride` (and every re-run while shrinking) is preceded by
+            // a fixed set of FAILING library operations on this thread (see perturb.rs)
+            let k = case_no.get();
+            case_no.set(k + 1);
+            if k % stride == 3 || failed.load(Ordering::Relaxed) {
+                crate::perturb::rejected_everywhere();
+                if acc.counting {
+                    acc.class("history:after-rejected-operations-on-this-thread");
+                }
+            }
             match guarded(&sub_name, &f, &case, acc) {
                 Ok(()) => Ok(()),
                 Err(fail) => {
@@ -292,9 +305,11 @@ impl Acc {
             Err(TestError::Fail(_, minimal)) => {
                 self.counting = false;
                 let sub_name = self.sub.clone();
+                crate::perturb::rejected_everywhere();
                 let mut r = guarded(&sub_name, &f, &minimal, self);
                 let mut tries = 0;
                 while r.is_ok() && tries < 300 {
+                    crate::perturb::rejected_everywhere();
                     r = guarded(&sub_name, &f, &minimal, self);
                     tries += 1;
                 }
@@ -434,6 +449,8 @@ impl SubCheck {
                 let input = v.get("input").cloned().unwrap_or(v.clone());
                 let c: C = serde_json::from_value(input)
                     .map_err(|e| Fail::new("HARNESS/replay-decode", format!("{e}")))?;
+                // a case may only fail after rejected operations on the thread: replay with that history
+                crate::perturb::rejected_everywhere();
                 f2(&c, acc)
             }),
         }
